@@ -184,10 +184,29 @@ def k3(shape):
     m = mm.Merkle()
     calls = []
 
+    inflight = {'arm': None, 'n': 0, 'fired': False}
+
+    def do_truncate():
+        cache.truncate(t)
+        eng.note(f'truncate({t})')
+        # what truncation is for: the source may differ above the truncation point afterwards
+        # (a reorganisation replaced those hashes)
+        for i in range(t, S):
+            leaves[i] = eng.fresh_bytes(f'M{i}', 32)
+
     async def source(index, count):
         calls.append((index, count))
         assert 0 <= index and index + count <= S
-        return leaves[index:index + count]
+        res = leaves[index:index + count]
+        if inflight['arm'] is not None:
+            if inflight['n'] == inflight['arm']:
+                # the truncation (and the replacement of the hashes above it) happens while this read is awaited:
+                # the caller gets what was read before it
+                inflight['arm'] = None
+                inflight['fired'] = True
+                do_truncate()
+            inflight['n'] += 1
+        return res
 
     def run(c):
         if symx.native():
@@ -213,12 +232,26 @@ def k3(shape):
         if op == 'q':
             query(len([c for c in calls]))
         elif op == 't':
-            cache.truncate(t)
-            eng.note(f'truncate({t})')
-            # what truncation is for: the source may differ above the truncation point afterwards
-            # (a reorganisation replaced those hashes)
-            for i in range(t, S):
-                leaves[i] = eng.fresh_bytes(f'M{i}', 32)
+            do_truncate()
+        elif op == 'x':
+            # a query during which (at its k-th source read, k solver-chosen) the truncation happens: its answer must
+            # be the from-scratch one of the source before or after the replacement
+            tag = len(calls)
+            l = eng.choice(f'l{tag}', S) + 1
+            i = eng.choice(f'i{tag}', l)
+            before = list(leaves)
+            inflight.update(arm=eng.choice('overtaken_read', 3), n=0, fired=False)
+            branch, root = run(cache.branch_and_root(l, i))
+            inflight['arm'] = None
+            if not inflight['fired']:
+                do_truncate()
+            ob, _t, oroot = ref_branch(before[:l], i)
+            nb, _t, nroot = ref_branch(leaves[:l], i)
+            eng.note(f'inflight bar({l},{i})')
+            eng.prove(z3_or([z3_and([deep_eq(root, oroot), deep_eq(list(branch), ob)]),
+                             z3_and([deep_eq(root, nroot), deep_eq(list(branch), nb)])]),
+                      'K3: MerkleCache result of a request overtaken by a truncation is of neither source',
+                      {'signature': 'K3-cache-inflight', 'a': a, 't': t, 'l': l, 'i': i})
 
 
 def k3_shapes(tier):
@@ -228,6 +261,8 @@ def k3_shapes(tier):
         for t in range(1, S + 1):
             for order in ('qtq', 'tqq'):
                 out.append({'S': S, 'a': a, 't': t, 'order': order})
+            if tier == 'thorough' or (a + t) % 2 == 0:
+                out.append({'S': S, 'a': a, 't': t, 'order': 'xq'})
     if tier == 'thorough':
         for a, t in ((17, 9), (20, 16), (5, 20), (18, 17)):
             out.append({'S': 21, 'a': a, 't': t, 'order': 'tq'})
@@ -255,9 +290,10 @@ KERNELS = [
                     'branch_and_root', '_leaf_start', '_segment_length'],
            bounds='source of S=6 (quick) / 11 (thorough) symbolic hashes; initial length a, truncation t in 1..S '
                   '(shapes); two queries (length, index) over all values (solver-enumerated); orders '
-                  'query-truncate-query and truncate-query-query; plus spot shapes with S=21 in thorough',
-           outside='longer operation sequences, sources above the bound; a source that changes while a request is '
-                   'in flight (that is C11); after truncate(t) the hashes at positions >= t are replaced by fresh '
+                  'query-truncate-query, truncate-query-query and (query overtaken by the truncation at its k-th source read, k '
+                  'solver-chosen)-query; plus spot shapes with S=21 in thorough',
+           outside='longer operation sequences, sources above the bound; more than one truncation during a request; '
+                   'after truncate(t) the hashes at positions >= t are replaced by fresh '
                    'symbolic ones',
            witnesses=1),
 ]
